@@ -289,6 +289,59 @@ type tableXML struct {
 	Rows      []tableRowXML `xml:"table-row"`
 }
 
+// UnmarshalXML decodes a table. Rows and columns are not always direct children
+// of <table:table>: ODF groups them in <table:table-header-rows> (the rows a
+// text document repeats on every page), <table:table-rows>,
+// <table:table-row-group> and the corresponding column containers. All rows are
+// collected in document order, whatever container they are in.
+func (t *tableXML) UnmarshalXML(d *xml.Decoder, start xml.StartElement) error {
+	t.XMLName = start.Name
+	for _, attr := range start.Attr {
+		switch attr.Name.Local {
+		case "name":
+			t.Name = attr.Value
+		case "style-name":
+			t.StyleName = attr.Value
+		}
+	}
+	depth := 0 // open row / column containers
+	for {
+		token, err := d.Token()
+		if err != nil {
+			return err
+		}
+		switch el := token.(type) {
+		case xml.StartElement:
+			switch el.Name.Local {
+			case "table-row":
+				var row tableRowXML
+				if err := d.DecodeElement(&row, &el); err != nil {
+					return err
+				}
+				t.Rows = append(t.Rows, row)
+			case "table-column":
+				var col tableColXML
+				if err := d.DecodeElement(&col, &el); err != nil {
+					return err
+				}
+				t.Columns = append(t.Columns, col)
+			case "table-header-rows", "table-rows", "table-row-group",
+				"table-header-columns", "table-columns", "table-column-group":
+				depth++ // look inside the container
+			default:
+				if err := d.Skip(); err != nil {
+					return err
+				}
+			}
+		case xml.EndElement:
+			if depth == 0 {
+				return nil
+			}
+			depth--
+		}
+	}
+}
+
 // tableColXML represents a table column definition.
 type tableColXML struct {
 	XMLName        xml.Name `xml:"table-column"`
